@@ -42,6 +42,10 @@ CHECKS = {
          "Exact acceptance is decided string by string: the real parser must return Ok exactly when the reference reader (written from the grammar in the statement) accepts, with exactly the denoted instant and offset; every rendering must equal the reference rendering, match the grammar and reparse to the same value at the printed precision.",
          "Trusted: the reference reader/writer (self-tested on RFC 3339's own examples). Strings further than 2 edits from a template and longer than the short-string bound are not enumerated.",
          "DESIGN.md §4 C10"),
+ 'C11': ("exhaustive sweep of every date of years 0..=9999 for the output side and the complete Cartesian product of the RFC 2822 grammar's options (weekday, digit counts, letter case, year forms, seconds, all zone names and military letters, comments, white-space runs) for the input side, each generated string parsed by the real parser and compared with the value the generator denotes",
+         "All 3,652,425 dates are rendered (with a leap second among the times) and must have the stated form, the right weekday and reparse to the same second and offset; the input product enumerates every combination of the obsolete and current syntax options on base dates chosen so that 2-, 3-, 4- and 5-digit year forms are all expressible; a contradicting weekday must be rejected.",
+         "Trusted: the generator (string and denoted value are built together from RefCal fields). Strings outside the generator are left to C15.",
+         "DESIGN.md §4 C11"),
  'C17': ("complete small scope (every stamp x every span 1..=40 ns x 3 operations), complete product of boundary stamps x span alphabet x offsets with a second application (idempotence), and all 65,536 digit counts x nanosecond lattice, against i128 floor arithmetic",
          "All sign/tie/multiple combinations occur in the exhaustively enumerated small scope; boundary products cover the 64-bit nanosecond window ends, both date range ends, spans around i64::MAX, zero/negative/inexpressible spans and the wall-clock basis for offsets; each successful result is re-rounded (depth 2) to show idempotence.",
          "Trusted: i128 floor arithmetic; RefLeapTime for leap-second operands of the sub-second operations. The RoundingError variant is not judged.",
